@@ -131,6 +131,8 @@ def project(eng, state, v, path):
             v = index(v, Int(e[1]))
         elif e[0] == "sub":
             v = mk("subslice", v, Int(e[1]), Int(e[2]), e[3])
+        elif e[0] == "rng":
+            v = mk("slice", v, e[1], e[2])
         else:
             v = mk("proj", v, str(e))
     return v
@@ -816,6 +818,8 @@ class Engine:
             return Int(0)
         if op == "owf":
             return v.args[2]       # Strobe output operations fill the whole buffer
+        if op == "elem" and v.args[0].op == "chunks" and v.args[0].args[2] == "chunks_exact":
+            return v.args[0].args[1]
         if op == "copied":
             return v.args[1]
         if op == "as_array":
